@@ -21,7 +21,6 @@ whose signature is the raise site (`ExcType@module.function[->callee]`, plus
 `<-module.parser` when the raise site is a shared helper).
 """
 import struct
-import threading
 import time
 
 import paramiko
@@ -769,13 +768,17 @@ class Sess:
     # -- end ----------------------------------------------------------------
     def finish(self, judge, desc, stage, sample=False):
         ctx = self.ctx
-        a = self.a
+        # FIN towards the victim only: it still reads (and may answer into the void) everything we
+        # sent, in order, then sees EOF and ends. Closing our side first would make its *replies*
+        # fail with EOFError before it got to the later messages.
+        towards = self.link.ab if self.role == "S" else self.link.ba
+        self.link.eof(towards.name)
+        join_victim(ctx, self.v, repr(desc))
         try:
             self.att.close()
         except Exception:
             pass
         self.link.eof()
-        ok = join_victim(ctx, self.v, repr(desc))
         try:
             self.v.close()
         except Exception:
